@@ -22,52 +22,67 @@ def removal_pairing(ctx, tag, side):
     F, P, R = ctx.F, ctx.P, ctx.run
     T = Table(F, side)
     key_field = T.data_field('delay_queue::Key')
+    from .common import variant_values
     n = 0
+
+    def paired_at(g, bb, is_me):
+        """in body g, the call at bb yields the removed entry (directly, or through a helper): after its hit edge every path removes that entry's timer"""
+        me = ('call', g.id, bb)
+        tms = []
+        for b2, t2 in g.calls():
+            if callee_is(t2, 'DelayQueue::remove', 'DelayQueue::try_remove'):
+                rr = P.root(P.operand(g, t2['args'][1], at=b2))
+                if rr and all(is_me(r) and key_field in P.fpath(p) for r, p in rr):
+                    tms.append(b2)
+            if callee_is(t2, 'DelayQueue::clear'):
+                tms.append(b2)
+        hit = None
+        for i, b in enumerate(g.blocks):
+            if b['cleanup'] or b['term']['k'] != 'switch':
+                continue
+            d = b['term']['discr']
+            if d['k'] in ('copy', 'move'):
+                tt = P.operand(g, d, at=i)
+                if tt[0] == 'discr' and result_of(P, tt[1], me):
+                    ety = None
+                    for st_ in b['stmts']:
+                        if st_['rv']['k'] == 'discr':
+                            ety = st_['rv'].get('ty')
+                    vals = variant_values(F, ety, ['Some', 'Continue']) if ety else None
+                    some = dict((v, x) for v, x in b['term']['targets']).get(vals[0] if vals else 1)
+                    if some is not None:
+                        hit = some
+        return hit is not None and bool(tms) and cfg.all_paths_pass(g, hit, cfg.exits(g), set(tms))
+
+    def discharged(m, g, bb, is_me, depth=3):
+        """paired in g itself, or g belongs to a private helper of the table that hands the removed entry to its callers and every call site (within
+        the entry point m) is paired"""
+        if paired_at(g, bb, is_me):
+            return True
+        h = F.enclosing_item(g)
+        if depth == 0 or h is None or h.id == m.id or not T.is_helper(h) or h.kind == 'Closure':
+            return False
+        sites = [(g2, b2) for g2 in T.bodies(m) for b2, t2 in g2.calls() if F.callee_fn(t2) is h]
+        return bool(sites) and all(discharged(m, g2, b2, is_me, depth - 1) for g2, b2 in sites)
+
     for m in T.removing():
         if m.impl_of and (m.impl_of.get('trait') or '').endswith('Drop'):
             continue
+        if T.is_helper(m):
+            continue   # judged in the context of the entry points that call it
+        ctxs = {b_.id for b_ in T.bodies(m)}
         for g in T.bodies(m):
             for bb, t in g.calls():
                 if callee_is(t, 'HashMap::remove', 'HashMap::remove_entry', 'hash_map::OccupiedEntry::remove', 'hash_map::OccupiedEntry::remove_entry'):
                     n += 1
-                    kr = P.root(P.operand(g, t['args'][1], at=bb), through_params='closures') if len(t['args']) > 1 else []
+                    kr = P.root(P.operand(g, t['args'][1], at=bb), through_params=T.is_helper, callers=ctxs) if len(t['args']) > 1 else []
                     fired = bool(kr) and all(P.is_call(r, 'DelayQueue::poll_expired') for r, _ in kr)
                     if fired:
                         R.ob(tag, (side + ' table', m.npath.split('::')[-1], 'removal for a fired timer'), True,
                              'this removal is keyed by the timer that just fired (the DelayQueue already dropped it)', [g.loc(t)])
                         continue
-                    # the timer removal for the removed entry, on every path from the hit edge to the exits
                     me = ('call', g.id, bb)
-                    tms = []
-                    for b2, t2 in g.calls():
-                        if callee_is(t2, 'DelayQueue::remove', 'DelayQueue::try_remove'):
-                            rr = P.root(P.operand(g, t2['args'][1], at=b2))
-                            if rr and all(P.unbound(r) == me and key_field in P.fpath(p) for r, p in rr):
-                                tms.append(b2)
-                        if callee_is(t2, 'DelayQueue::clear'):
-                            tms.append(b2)
-                    pred = lambda x: result_of(P, x, me)
-                    hit = None
-                    # first block of the hit edge
-                    ok = False
-                    for i, b in enumerate(g.blocks):
-                        if b['cleanup'] or b['term']['k'] != 'switch':
-                            continue
-                        d = b['term']['discr']
-                        if d['k'] in ('copy', 'move'):
-                            tt = P.operand(g, d, at=i)
-                            if tt[0] == 'discr' and pred(tt[1]):
-                                ety = None
-                                for st_ in b['stmts']:
-                                    if st_['rv']['k'] == 'discr':
-                                        ety = st_['rv'].get('ty')
-                                from .common import variant_values
-                                vals = variant_values(F, ety, ['Some', 'Continue']) if ety else None
-                                some = dict((v, x) for v, x in b['term']['targets']).get(vals[0] if vals else 1)
-                                if some is not None:
-                                    hit = some
-                    if hit is not None and tms:
-                        ok = cfg.all_paths_pass(g, hit, cfg.exits(g), set(tms))
+                    ok = discharged(m, g, bb, lambda r, me=me: P.unbound(r) == me)
                     R.ob(tag, (side + ' table', m.npath.split('::')[-1], 'removal drops the entry\'s timer'), ok,
                          'every path after a successful map removal also removes that entry\'s deadline timer', [g.loc(t)])
                 if callee_is(t, 'HashMap::drain', 'HashMap::clear', 'HashMap::retain'):
